@@ -32,6 +32,36 @@ func tbsFamily(c map[string]json.RawMessage) (interface{}, error) {
 			return nil, err
 		}
 		strip = dir + string(os.PathSeparator)
+		if boolean(c, "cli") {
+			// `coca tbs -p dir`: coca_reporter/tbs.json (findings) and tdeps.json (the code model of the test files)
+			work, err := newWork()
+			if err != nil {
+				return nil, err
+			}
+			defer os.RemoveAll(work)
+			if _, err := cocaCli(work, "tbs", "-p", dir); err != nil {
+				return nil, err
+			}
+			var res []tfinding
+			b, err := getReport(work, "tbs.json")
+			if err != nil {
+				return nil, err
+			}
+			if err := json.Unmarshal(b, &res); err != nil {
+				return map[string]interface{}{"reportUnreadable": err.Error()}, nil
+			}
+			out := []tfinding{}
+			for _, r := range res {
+				out = append(out, tfinding{strings.TrimPrefix(r.FileName, strip), r.Type, r.Line})
+			}
+			if b, err := getReport(work, "tdeps.json"); err == nil {
+				_ = json.Unmarshal(b, &clzs)
+			}
+			for i := range clzs {
+				clzs[i].FilePath = strings.TrimPrefix(clzs[i].FilePath, strip)
+			}
+			return map[string]interface{}{"findings": out, "deps": clzs}, nil
+		}
 		files := cocafile.GetJavaTestFiles(dir)
 		identApp := javaapp.NewJavaIdentifierApp()
 		identifiers := identApp.AnalysisFiles(files)
